@@ -62,6 +62,11 @@ def all_and_lambda(ctx):
         ('__all__ = ["public_function", "PublicClass"]\ndef public_function(argument_name):\n    return argument_name\nclass PublicClass:\n    pass\ndef private_function():\n    return public_function(1)\n', ['public_function', 'PublicClass']),
         ('__all__ = []\n__all__ += ["exported_name"]\nexported_name = 1\nhidden_name = exported_name + 1\nprint(hidden_name, hidden_name)\n', ['exported_name']),
         ('__all__: list = ["exported_name"]\nexported_name = 1\nhidden_name = exported_name\nprint(hidden_name, hidden_name)\n', ['exported_name']),
+        ('public_api = __all__ = ["exported_name"]\nexported_name = 1\nhidden_name = exported_name\nprint(hidden_name, hidden_name)\n', ['exported_name']),
+        ('__all__ = other_list = ["exported_name", "second_name"]\nexported_name = second_name = 1\nhidden_name = exported_name\nprint(hidden_name, hidden_name)\n', ['exported_name', 'second_name']),
+        ('try:\n    __all__ = ["exported_name"]\nexcept Exception:\n    pass\nexported_name = 1\nhidden_name = exported_name\nprint(hidden_name, hidden_name)\n', ['exported_name']),
+        ('import sys\nif sys.version_info >= (3,):\n    __all__ = ["exported_name"]\nelse:\n    __all__ = ["exported_name", "legacy_name"]\nexported_name = legacy_name = 1\nprint(legacy_name, legacy_name)\n', ['exported_name', 'legacy_name']),
+        ('with some_context():\n    __all__ = ["exported_name"]\nexported_name = 1\nhidden_name = exported_name\nprint(hidden_name, hidden_name)\n', ['exported_name']),
     ]
     for src, must in cases:
         opts = dict(c02.ALL_OFF)
